@@ -1,15 +1,25 @@
 /* drv_al.c — array-list domain (C07).  Same script and observation format as
- * ocaml/drv_al.ml.  Mode d drives array_list_* directly (elements are heap boxes holding
- * the id, the free callback logs and frees them); mode j drives json_object_array_* of
- * json_object.c (elements are json int objects, or json strings holding the decimal text when
- * the id is a multiple of 3, whose value — as json_object_get_int64 reads it — is the id; a
- * userdata delete callback logs the CURRENT value when the array's json_object_put destroys
- * the element).
- * Ops: A P I D H G M as before; S / R sort by the ascending / descending comparator; B<k> / C<k>
- * bsearch by the ascending / descending comparator; V<i>,<v> changes the value of element i in
- * place (json_object_set_int64 / set_int / set_string on the element, *box = v in mode d) without
- * calling the array.  A lower-case op letter (a p i d h g m s r b c) performs the same operation
- * through array_list_* on json_object_get_array(arr) in mode j (same as upper case in mode d). */
+ * ocaml/drv_al.ml.
+ * Mode d drives array_list_* directly: elements are heap boxes {id, tag}; the free callback
+ * logs the box's current id and frees it.
+ * Mode j drives json_object_array_* of json_object.c: an element with value n is, by n,
+ *   n % 5 == 1   a record  {"id": n, "p": "x"}
+ *   n % 5 == 2   a record  [n, "x"]
+ *   n % 3 == 0   a json string holding the decimal text
+ *   otherwise    a json int
+ * and its value is what jval() reads.  A userdata delete callback logs the CURRENT value when
+ * the array's json_object_put destroys the element.
+ * Ops: A P I D H G M (store / delete / shrink / read / block append); S / R sort by the ascending /
+ * descending member-vs-member comparator; B<e> / C<e> bsearch with a key of member shape;
+ * K<k> / Q<k> bsearch with a BARE INT key (json int / key box) and the key-vs-member comparator,
+ * which reads its first argument as a key and its second as a member, as bsearch(3) promises;
+ * V<i>,<v> changes the value of element i in place without calling the array.
+ * A lower-case op letter performs the same operation through array_list_* on
+ * json_object_get_array(arr) in mode j (same as upper case in mode d).
+ * Every comparator call is checked for the roles of its arguments: during a search the first must
+ * point to the key and the second into the array's slots; during a sort both must point to
+ * elements the array held when the sort began.  A violated role turns the step's first token
+ * into ROLE. */
 #include <ctype.h>
 #include "common.h"
 #include "arraylist.h"
@@ -17,7 +27,9 @@
 const char *DOMAIN = "al";
 
 static int jmode;
-static int jmode_is_j(void) { return jmode; }
+static struct array_list *arr;
+static struct json_object *jarr;
+
 static long *rel_log;
 static size_t rel_n, rel_cap;
 static long live_elts;     /* elements created and not yet destroyed */
@@ -52,93 +64,70 @@ static void put_seq(const long *v, size_t n)
 		else i++;
 	}
 }
-/* ---- mode d ---- */
+
+/* ---- elements, mode d ---- */
+#define BOXTAG 0x0b0cL
+#define KEYTAG 0x0e11L
+struct box { long id; long tag; };
 static void box_free(void *p)
 {
-	log_rel(*(long *)p);
+	log_rel(((struct box *)p)->id);
 	live_elts--;
 	(free)(p);
 }
 static void *mkbox(long id)
 {
-	long *b = (long *)(malloc)(sizeof(long));
-	*b = id;
+	struct box *b = (struct box *)(malloc)(sizeof *b);
+	b->id = id; b->tag = BOXTAG;
 	live_elts++;
 	return b;
 }
-static int cmp_box(const void *a, const void *b)
+/* ---- elements, mode j ---- */
+static long jval(struct json_object *o)
 {
-	const long *x = *(const long *const *)a, *y = *(const long *const *)b;
-	if (!x || !y) return (x != NULL) - (y != NULL);
-	return (*x > *y) - (*x < *y);
+	switch (json_object_get_type(o)) {
+	case json_type_object: return (long)json_object_get_int64(json_object_object_get(o, "id"));
+	case json_type_array: return (long)json_object_get_int64(json_object_array_get_idx(o, 0));
+	default: return (long)json_object_get_int64(o);
+	}
 }
-static int cmp_box_desc(const void *a, const void *b) { return cmp_box(b, a); }
-/* ---- mode j ---- */
 static void jdel(struct json_object *o, void *ud)
 {
 	(void)ud;
-	log_rel((long)json_object_get_int64(o));     /* the value the element has now */
+	log_rel(jval(o));     /* the value the element has now */
 	live_elts--;
 }
-static struct json_object *mkjint(long id)
+static struct json_object *mkjelt(long id)
 {
 	struct json_object *o;
-	if (id % 3 == 0) {
-		char buf[32];
-		snprintf(buf, sizeof buf, "%ld", id);
+	size_t keep = xa_limit;
+	char buf[32];
+	xa_limit = 0;           /* the allocation limit is about the array, not about its elements */
+	snprintf(buf, sizeof buf, "%ld", id);
+	if (id % 5 == 1) {
+		o = json_object_new_object();
+		json_object_object_add(o, "id", json_object_new_int64(id));
+		json_object_object_add(o, "p", json_object_new_string("x"));
+	} else if (id % 5 == 2) {
+		o = json_object_new_array_ext(2);
+		json_object_array_add(o, json_object_new_int64(id));
+		json_object_array_add(o, json_object_new_string("x"));
+	} else if (id % 3 == 0)
 		o = json_object_new_string(buf);
-	} else
+	else
 		o = json_object_new_int64(id);
-	if (!o) return NULL;
 	json_object_set_userdata(o, (void *)(intptr_t)id, jdel);
+	xa_limit = keep;
 	live_elts++;
 	return o;
 }
-static int cmp_j(const void *a, const void *b)
-{
-	struct json_object *x = *(struct json_object *const *)a, *y = *(struct json_object *const *)b;
-	int64_t u, v;
-	if (!x || !y) return (x != NULL) - (y != NULL);
-	u = json_object_get_int64(x); v = json_object_get_int64(y);
-	return (u > v) - (u < v);
-}
-static int cmp_j_desc(const void *a, const void *b) { return cmp_j(b, a); }
-static int jmode_null_set(void)
-{
-	/* the setters accept a NULL object and report failure */
-	return jmode ? json_object_set_int64(NULL, 5) : 0;
-}
-/* change the value of an element in place; 1 = done, 0 = nothing to change (NULL element) */
-static int set_value(void *p, long v)
-{
-	struct json_object *o = (struct json_object *)p;
-	if (!p) return jmode_null_set();
-	if (!jmode_is_j()) { *(long *)p = v; return 1; }
-	if (json_object_get_type(o) == json_type_string) {
-		char buf[32];
-		if (json_object_set_int64(o, 777) != 0 || json_object_set_int(o, 7) != 0) return -7;  /* wrong-type setters must refuse */
-		snprintf(buf, sizeof buf, "%ld", v);
-		return json_object_set_string(o, buf);
-	}
-	if (json_object_set_string(o, "777") != 0) return -7;
-	if ((v & 1) && v <= INT_MAX) return json_object_set_int(o, (int)v);
-	return json_object_set_int64(o, (int64_t)v);
-}
-
-static struct array_list *arr;
-static struct json_object *jarr;
-
-static void *get(size_t i)
-{
-	return jmode ? (void *)json_object_array_get_idx(jarr, i) : array_list_get_idx(arr, i);
-}
 static long id_of(void *p)
 {
-	return jmode ? (long)json_object_get_int64((struct json_object *)p) : *(long *)p;
+	return jmode ? jval((struct json_object *)p) : ((struct box *)p)->id;
 }
 static void *mkid(long id)
 {
-	return jmode ? (void *)mkjint(id) : mkbox(id);
+	return jmode ? (void *)mkjelt(id) : mkbox(id);
 }
 static void *mkelt(const char *s)
 {
@@ -152,6 +141,116 @@ static void drop(void *p)      /* the array refused the element: the caller stil
 	if (jmode) json_object_put((struct json_object *)p); else box_free(p);
 	quiet = 0;
 }
+/* change the value of an element in place; 1 = done, 0 = nothing to change (NULL element),
+ * -7 = a setter of the wrong type did not refuse */
+static int set_value(void *p, long v)
+{
+	struct json_object *o = (struct json_object *)p;
+	size_t keep = xa_limit;
+	char buf[32];
+	int r;
+	if (!p) return jmode ? json_object_set_int64(NULL, 5) : 0;   /* the setters accept NULL and report failure */
+	if (!jmode) { ((struct box *)p)->id = v; return 1; }
+	xa_limit = 0;
+	snprintf(buf, sizeof buf, "%ld", v);
+	switch (json_object_get_type(o)) {
+	case json_type_string:
+		r = (json_object_set_int64(o, 777) != 0 || json_object_set_int(o, 7) != 0) ? -7 : json_object_set_string(o, buf);
+		break;
+	case json_type_object:
+		r = (json_object_set_int64(o, 777) != 0 || json_object_set_string(o, "777") != 0) ? -7
+		    : json_object_set_int64(json_object_object_get(o, "id"), (int64_t)v);
+		break;
+	case json_type_array:
+		r = (json_object_set_int64(o, 777) != 0 || json_object_set_string(o, "777") != 0) ? -7
+		    : json_object_set_int64(json_object_array_get_idx(o, 0), (int64_t)v);
+		break;
+	default:
+		if (json_object_set_string(o, "777") != 0) r = -7;
+		else if ((v & 1) && v <= INT_MAX) r = json_object_set_int(o, (int)v);
+		else r = json_object_set_int64(o, (int64_t)v);
+	}
+	xa_limit = keep;
+	return r;
+}
+
+/* ---- comparators, with the roles of their arguments recorded ---- */
+static int role_bad;               /* a comparator call broke the contract during this step */
+static const void *cur_key;        /* the key object of the search in progress */
+static void **slots_lo, **slots_hi;/* the slots of the array being searched */
+static void **snap; static size_t snap_n;   /* the elements the array held when the sort began */
+
+static int cmp_ptr(const void *a, const void *b)
+{
+	uintptr_t x = (uintptr_t)*(void *const *)a, y = (uintptr_t)*(void *const *)b;
+	return (x > y) - (x < y);
+}
+static int in_snapshot(const void *p)
+{
+	return p == NULL || bsearch(&p, snap, snap_n, sizeof(void *), cmp_ptr) != NULL;
+}
+/* search: (key, member).  sort: (member, member). */
+static void check_roles(const void *a, const void *b)
+{
+	if (cur_key) {
+		void *const *sb = (void *const *)b;
+		if (*(void *const *)a != cur_key) role_bad = 1;
+		if (sb < (void *const *)slots_lo || sb >= (void *const *)slots_hi) role_bad = 1;
+	} else if (snap) {
+		if (!in_snapshot(*(void *const *)a) || !in_snapshot(*(void *const *)b)) role_bad = 1;
+	}
+}
+/* member vs member (sorting, and searching with a key of member shape): NULL first, then by value */
+static int cmp_mm(const void *a, const void *b)
+{
+	void *x = *(void *const *)a, *y = *(void *const *)b;
+	long u, v;
+	check_roles(a, b);
+	if (!x || !y) return (x != NULL) - (y != NULL);
+	u = id_of(x); v = id_of(y);
+	return (u > v) - (u < v);
+}
+static int cmp_mm_desc(const void *a, const void *b)
+{
+	void *x = *(void *const *)a, *y = *(void *const *)b;
+	long u, v;
+	check_roles(a, b);
+	if (!x || !y) return (y != NULL) - (x != NULL);
+	u = id_of(x); v = id_of(y);
+	return (v > u) - (v < u);
+}
+/* key vs member, the bsearch(3) contract: the FIRST argument points to the key — a bare int: a json
+ * int in mode j, a key box in mode d — and the SECOND to an array member (int, string or record).
+ * Each side is read the way its role says, as client code written against the contract would. */
+static long key_of(const void *k)
+{
+	const struct box *kb = *(const struct box *const *)k;
+	if (jmode) return (long)json_object_get_int64(*(struct json_object *const *)k);
+	return kb && kb->tag == KEYTAG ? kb->id : 0;     /* not a key (a broken caller): no id to read */
+}
+static int cmp_km(const void *k, const void *m)
+{
+	void *y = *(void *const *)m;
+	long u, v;
+	check_roles(k, m);
+	if (!y) return 1;              /* NULL members sort first: the key is above them */
+	u = key_of(k); v = id_of(y);
+	return (u > v) - (u < v);
+}
+static int cmp_km_desc(const void *k, const void *m)
+{
+	void *y = *(void *const *)m;
+	long u, v;
+	check_roles(k, m);
+	if (!y) return -1;             /* NULL members sort last */
+	u = key_of(k); v = id_of(y);
+	return (v > u) - (v < u);
+}
+
+static void *get(size_t i)
+{
+	return jmode ? (void *)json_object_array_get_idx(jarr, i) : array_list_get_idx(arr, i);
+}
 static void put_ids(void)
 {
 	put_seq(rel_log, rel_n);
@@ -162,7 +261,7 @@ static void obs(const char *ret)
 	size_t size = jmode ? json_object_get_array(jarr)->size : arr->size;
 	size_t i;
 	long *v = (long *)(malloc)((len ? len : 1) * sizeof(long));
-	printf("%s %zu %zu ", ret, len, size);
+	printf("%s %zu %zu ", role_bad ? "ROLE" : ret, len, size);
 	put_ids();
 	putchar(' ');
 	for (i = 0; i < len; i++) {
@@ -185,7 +284,7 @@ void run_case(char *rest)
 	if (!mode || !limit || !init || !ops) { printf("BADLINE"); return; }
 	jmode = (mode[0] == 'j');
 	xa_reset();
-	rel_n = 0; live_elts = 0; quiet = 0;
+	rel_n = 0; live_elts = 0; quiet = 0; role_bad = 0; cur_key = NULL; snap = NULL;
 	xa_limit = (size_t)strtoull(limit, NULL, 10);
 	arr = NULL; jarr = NULL;
 	if (jmode) jarr = json_object_new_array_ext((int)strtoll(init, NULL, 10));
@@ -198,14 +297,16 @@ void run_case(char *rest)
 	for (tok = strtok_r(ops, ";", &save); tok; tok = strtok_r(NULL, ";", &save)) {
 		char *comma = strchr(tok, ',');
 		int r = 0;
-		char rbuf[32];
+		char rbuf[40];
+		int up = toupper((unsigned char)tok[0]);
 		/* lower case: through array_list_* on json_object_get_array() (mode j) */
 		int viaj = jmode && !islower((unsigned char)tok[0]);
 		struct array_list *al = jmode ? json_object_get_array(jarr) : arr;
 		if (!first) printf(" | ");
 		first = 0;
 		rel_n = 0;
-		switch (toupper((unsigned char)tok[0])) {
+		role_bad = 0;
+		switch (up) {
 		case 'A': {
 			void *e = mkelt(tok + 1);
 			r = viaj ? json_object_array_add(jarr, (struct json_object *)e) : array_list_add(al, e);
@@ -227,7 +328,7 @@ void run_case(char *rest)
 			void *e;
 			if (!comma) { printf("BADOP"); goto out; }
 			e = mkelt(comma + 1);
-			if (toupper((unsigned char)tok[0]) == 'P')
+			if (up == 'P')
 				r = viaj ? json_object_array_put_idx(jarr, i, (struct json_object *)e) : array_list_put_idx(al, i, e);
 			else
 				r = viaj ? json_object_array_insert_idx(jarr, i, (struct json_object *)e) : array_list_insert_idx(al, i, e);
@@ -248,10 +349,14 @@ void run_case(char *rest)
 				r = array_list_shrink(al, (size_t)n);
 			break; }
 		case 'S': case 'R': {
-			int desc = toupper((unsigned char)tok[0]) == 'R';
-			int (*cmp)(const void *, const void *) =
-				jmode ? (desc ? cmp_j_desc : cmp_j) : (desc ? cmp_box_desc : cmp_box);
+			int (*cmp)(const void *, const void *) = up == 'R' ? cmp_mm_desc : cmp_mm;
+			/* what the array holds now: every comparator argument must point to one of these */
+			snap_n = al->length;
+			snap = (void **)(malloc)((snap_n ? snap_n : 1) * sizeof(void *));
+			memcpy(snap, al->array, snap_n * sizeof(void *));
+			qsort(snap, snap_n, sizeof(void *), cmp_ptr);
 			if (viaj) json_object_array_sort(jarr, cmp); else array_list_sort(al, cmp);
+			(free)(snap); snap = NULL;
 			r = 0;
 			break; }
 		case 'V': {
@@ -266,18 +371,48 @@ void run_case(char *rest)
 			if (p) snprintf(rbuf, sizeof rbuf, "%ld", id_of(p)); else strcpy(rbuf, "n");
 			obs(rbuf);
 			continue; }
-		case 'B': case 'C': {
-			void *k = mkelt(tok + 1);
-			int found;
-			int desc = toupper((unsigned char)tok[0]) == 'C';
+		case 'B': case 'C': case 'K': case 'Q': {
+			/* B C: the key has the shape of a member; K Q: the key is a bare int */
+			int hetero = (up == 'K' || up == 'Q'), desc = (up == 'C' || up == 'Q');
 			int (*cmp)(const void *, const void *) =
-				jmode ? (desc ? cmp_j_desc : cmp_j) : (desc ? cmp_box_desc : cmp_box);
-			if (viaj)
-				found = json_object_array_bsearch((struct json_object *)k, jarr, cmp) != NULL;
-			else
-				found = array_list_bsearch((const void **)&k, al, cmp) != NULL;
-			drop(k);
-			obs(found ? "f" : "nf");
+				hetero ? (desc ? cmp_km_desc : cmp_km) : (desc ? cmp_mm_desc : cmp_mm);
+			struct box keybox;
+			void *k, *hit = NULL;
+			int found;
+			if (!hetero)
+				k = mkelt(tok + 1);
+			else if (jmode) {
+				size_t keep = xa_limit;
+				xa_limit = 0;
+				k = json_object_new_int64(strtol(tok + 1, NULL, 10));
+				xa_limit = keep;
+			} else {
+				keybox.id = strtol(tok + 1, NULL, 10); keybox.tag = KEYTAG;
+				k = &keybox;
+			}
+			cur_key = k;
+			slots_lo = al->array; slots_hi = al->array + al->length;
+			if (k == NULL) cur_key = NULL;       /* a NULL key has no identity to check */
+			if (viaj) {
+				hit = json_object_array_bsearch((struct json_object *)k, jarr, cmp);
+				found = hit != NULL;
+			} else {
+				void **slot = (void **)array_list_bsearch((const void **)&k, al, cmp);
+				found = slot != NULL;
+				if (slot) hit = *slot;
+			}
+			cur_key = NULL;
+			if (!hetero) {
+				drop(k);
+				strcpy(rbuf, found ? "f" : "nf");
+			} else {
+				if (jmode) json_object_put((struct json_object *)k);
+				/* what was found, by its value: it must carry the key's id */
+				if (!found) strcpy(rbuf, "nf");
+				else if (!hit) strcpy(rbuf, "fn");
+				else snprintf(rbuf, sizeof rbuf, "f%ld", id_of(hit));
+			}
+			obs(rbuf);
 			continue; }
 		default: printf("BADOP"); goto out;
 		}
